@@ -79,6 +79,8 @@ var errTable = map[string]tabEntry{
 		"the writer is always the bytes.Buffer installed by BufferedFormatter.FormatSelectionSet; bytes.Buffer.Write never returns an error"},
 	"introspection.(*IntrospectionResolver).resolveType/test (*gqlparser/ast.Value).Value": {2,
 		"includeDeprecated: when the variable cannot be resolved the spec default (false) is used; validation has already type-checked the argument"},
+	"introspection.(*IntrospectionResolver).ResolveIntrospectionFields/test (*gqlparser/ast.Value).Value": {1,
+		"__type(name:): a name that cannot be evaluated (validation already type-checked it as String!) yields a null type, which is what an unknown name yields"},
 	"introspection.parseInputField/test encoding/json.Marshal": {2,
 		"the marshalled value was itself produced by json.Unmarshal (interface{} tree of maps, slices, strings, numbers, bools): Marshal cannot fail on it"},
 	"pebbles.(*Gateway).subscriptionHandler/drop github.com/buildbuildio/pebbles.sendHeartbeat": {1,
